@@ -151,6 +151,10 @@ def check_tree(case):
     got = _str.predict_leaves(model, Q)
     require(np.array_equal(np.asarray(got), app), "predict_leaves:differs",
             "predict_leaves=%r apply=%r" % (np.asarray(got).tolist()[:10], app.tolist()[:10]), facts)
+    for i in range(0, len(Q), max(1, len(Q) // 6)):
+        one = _str.predict_leaves(model, Q[i:i + 1])
+        require(np.asarray(one).shape == (1,) and int(np.asarray(one)[0]) == int(app[i]), "predict_leaves:single-row",
+                "row %d alone -> %r, apply -> %d" % (i, np.asarray(one).tolist(), int(app[i])), facts)
     li = _str.tree_leave_index(model)
     require(sorted(int(i) for i in li) == ref_leaves and len(li) == len(ref_leaves), "leave_index:differs",
             "tree_leave_index=%r, nodes without children=%r" % (list(li), ref_leaves), facts)
